@@ -21,7 +21,8 @@ def sanitizer_phase(prop, pl, tier, v, seed, ev):
     def work(pair):
         m, c = pair
         d = core.load_def(m)
-        scripts = core.gen_scripts(d, seed * 31 + 5, nexec, **pl["profile"])
+        prof = pl["profile"][0] if isinstance(pl["profile"], list) else pl["profile"]
+        scripts = core.gen_scripts(d, seed * 31 + 5, nexec, **prof)
         lines = [l for ex in scripts for l in ex]
         tp = os.path.join(v.dir, "san_%s_%s.ndjson" % (m, c))
         sp = tp + ".script"; open(sp, "w").write("\n".join(lines) + "\n")
@@ -40,7 +41,8 @@ def sanitizer_phase(prop, pl, tier, v, seed, ev):
         def vg(pair):
             m, c = pair
             d = core.load_def(m)
-            scripts = core.gen_scripts(d, seed * 37 + 11, 150, **pl["profile"])
+            prof = pl["profile"][0] if isinstance(pl["profile"], list) else pl["profile"]
+            scripts = core.gen_scripts(d, seed * 37 + 11, 150, **prof)
             lines = [l for ex in scripts for l in ex]
             tp = os.path.join(v.dir, "vg_%s_%s.ndjson" % (m, c)); sp = tp + ".script"; open(sp, "w").write("\n".join(lines) + "\n")
             r = subprocess.run(["valgrind", "--error-exitcode=9", "--quiet", "--track-origins=no", plain[(m, c)], sp, tp], capture_output=True, text=True, timeout=3000)
